@@ -141,6 +141,16 @@ impl TraitImpl for ZeroizeOnDrop {
 		data: &Data,
 	) -> TokenStream {
 		if data.is_empty(**trait_) {
+			// Nothing to zeroize, but the `match` still has to be exhaustive.
+			#[cfg(feature = "zeroize-on-drop")]
+			{
+				let self_pattern = data.self_pattern();
+
+				quote! {
+					#self_pattern => { }
+				}
+			}
+			#[cfg(not(feature = "zeroize-on-drop"))]
 			TokenStream::new()
 		} else {
 			match data.simple_type() {
